@@ -524,25 +524,24 @@ theorem sendDelayRequest_frames (p p' : Port) (s : InstState) (outs : List Out) 
 
 theorem sendAnnounce_shape (p p' : Port) (s : InstState) (q q' : List FwdTlv) (loose : Bool) (outs : List Out)
     (h : p.sendAnnounce s q loose = .ok (p', outs, q')) :
-    (p.st = .master ∧ p' = { p with annSeq := nextSeq p.annSeq } ∧ ∃ fw,
-      fwdLoop s.parent.parentPort s.pathEnable loose (q.length + 1) q (announcePathTlv s (announceMargin s p)).2 [] = .ok (fw, q') ∧
-      outs = [.reset .announce (.exact (intervalNs p.cfg.announceLog)), .sendGeneral (encode (p.announceMsg s fw)) false]) ∨
+    (p.st = .master ∧ p' = { p with annSeq := nextSeq p.annSeq } ∧ q' = (p.announceFwd s q loose).2 ∧
+      outs = [.reset .announce (.exact (intervalNs p.cfg.announceLog)),
+              .sendGeneral (encode (p.announceMsg s (p.announceFwd s q loose).1)) false]) ∨
     (p.st ≠ .master ∧ p' = p ∧ outs = [] ∧ q' = q) := by
   unfold Port.sendAnnounce at h
   split at h
   · rename_i hm
-    obtain ⟨r, hr, he⟩ := map_ok _ _ _ h
-    simp only [Prod.mk.injEq] at he
-    exact Or.inl ⟨hm, he.1.symm, r.1, (by rw [hr, ← he.2.2]), he.2.1.symm⟩
+    simp only [Except.ok.injEq, Prod.mk.injEq] at h
+    exact Or.inl ⟨hm, h.1.symm, h.2.2.symm, h.2.1.symm⟩
   · rename_i hm
     simp only [Except.ok.injEq, Prod.mk.injEq] at h
     exact Or.inr ⟨hm, h.1.symm, h.2.1.symm, h.2.2.symm⟩
 
 theorem sendAnnounce_frames (p p' : Port) (s : InstState) (q q' : List FwdTlv) (loose : Bool) (outs : List Out)
     (h : p.sendAnnounce s q loose = .ok (p', outs, q')) : Frames p s p' outs := by
-  rcases sendAnnounce_shape p p' s q q' loose outs h with ⟨_, hp, fw, _, ho⟩ | ⟨_, hp, ho, _⟩
+  rcases sendAnnounce_shape p p' s q q' loose outs h with ⟨_, hp, _, ho⟩ | ⟨_, hp, ho, _⟩
   · rw [ho, hp]
-    exact frames_one p _ s [.reset .announce (.exact (intervalNs p.cfg.announceLog))] _ (p.announceMsg s fw)
+    exact frames_one p _ s [.reset .announce (.exact (intervalNs p.cfg.announceLog))] _ (p.announceMsg s (p.announceFwd s q loose).1)
       (by intro x hx; simp only [List.mem_singleton] at hx; subst hx; rfl) rfl rfl rfl rfl
       (by intro n hn; cases hn; rfl) rfl rfl rfl
   · rw [ho, hp]; exact frames_of_quiet _ _ _ _ (quiet_refl p)
